@@ -97,3 +97,15 @@ Theorem C09_pst13_trim :
     In v (trim_keys supported keys) <-> (In v keys /\ (fold_right Nat.add 0 v <= supported)%nat).
 Proof. exact trim_keys_spec. Qed.
 Print Assumptions C09_pst13_trim.
+
+(* multilinear PST: the parameters are the eq-tables of one trapdoor point, and a key trimmed to fewer
+   variables is the key of the suffix of that point *)
+From Coq Require Import Arith List.
+From PC Require Import Schemes.MLPC Proofs.MLPCFacts.
+Theorem C09_multilinear_trim_is_subkey :
+  forall (FO : FieldOps) nv g h t p snv ck, length t = nv -> ml_setup nv g h t = Ok p -> ml_trim p snv = Ok ck ->
+    let t' := skipn (nv - snv) t in
+    mp_pg ck = tables_from g t' /\ mp_ph ck = tables_from h t' /\ mp_mask ck = map (fun ti => g * ti) t' /\
+    mp_nv ck = snv /\ mp_g ck = g /\ mp_h ck = h /\ (snv <= nv)%nat.
+Proof. exact @trim_tables. Qed.
+Print Assumptions C09_multilinear_trim_is_subkey.
